@@ -40,7 +40,10 @@ func ParamsExtractor(r *http.Request) map[string]string {
 	params := map[string]string{}
 	title := cases.Title(language.Und)
 	for key, value := range httptreemux.ContextParams(r.Context()) {
-		params[title.String(key)] = value
+		if key == "" {
+			continue
+		}
+		params[title.String(key[:1])+key[1:]] = value
 	}
 	return params
 }
